@@ -351,12 +351,15 @@ where
                                     }
                                 }
 
-                                top_level_con_items
-                                    .iter()
-                                    .skip(*start as usize)
-                                    .take((end - start) as usize + 1)
-                                    .map(usize::clone)
-                                    .for_each(|i| items.push(i));
+                                // positions before the first item or a reversed range select nothing
+                                if *start >= 0 && end >= start {
+                                    top_level_con_items
+                                        .iter()
+                                        .skip(*start as usize)
+                                        .take((end - start) as usize + 1)
+                                        .map(usize::clone)
+                                        .for_each(|i| items.push(i));
+                                }
                             }
                             _ => items.push(UNIT_INDEX),
                         }
